@@ -3,9 +3,9 @@ import harness
 from facts import (norm, call_name, short, subnodes, lit_value, matches_on, arm_variants, field_reads, peel_ty, lit_table,
                    matches_on_type, pat_lits)
 from prov import Prov, has_field, has_call
-from templates import variant_table, enclosing_contexts
-from tsrules import nulltable_bottom_up, namespace_targets, all_elements, fast_equal_sound
-from c14 import wiring_of, _P as C14P
+from templates import variant_table, enclosing_contexts, inlined, method_chain, LOSSY_OR_REORDERING
+from tsrules import nulltable_bottom_up, namespace_targets, fast_equal_sound
+from c14 import wiring_of, stable_pred, sections, require_fields, _P as C14P
 
 PR = "nitrogql_printer::"
 A = "nitrogql_ast::"
@@ -21,6 +21,146 @@ CONFIG_KEYS = {
                            "mutationVariableSuffix", "subscriptionVariableSuffix", "fragmentVariableSuffix"},
     "GenerateExportConfig": {"defaultExportForOperation", "operationResultType", "variablesType"},
 }
+
+
+def _peel(e):
+    while e.get("k") in ("AddrOf", "DropTemps", "Use", "Unary", "Cast") and "e" in e:
+        if e.get("k") == "Unary" and e.get("op") not in ("Deref", None):
+            break
+        e = e["e"]
+    return e
+
+
+def _elem_ty(t):
+    """element type of a Vec / slice / array type string (references peeled), else None"""
+    t = peel_ty(t)
+    for pre, close in (("alloc::vec::Vec<", ">"), ("[", "]")):
+        if t.startswith(pre) and t.endswith(close):
+            inner = t[len(pre):-1]
+            return inner.split(";")[0].strip()
+    return None
+
+
+def all_elements(P, R, rule, fn, adt, field, what):
+    """The collection `adt.field` is consumed completely.  A *traversal* is an iterator chain or a `for` loop that starts at the
+    field itself or at a local/parameter of the same element type that derives from it (the collection handed to a helper).
+    HOLDS when some traversal applies no dropping/truncating/reordering adaptor; VIOLATED when every traversal does (positive
+    evidence: elements are dropped); UNDECIDED when no traversal is found (`fn` may be given with helpers inlined)."""
+    key = "all:%s.%s@%s" % (adt.split("::")[-1], field, short(fn.path))
+    a = P.adts.get(adt)
+    want_elem = _elem_ty(a.field_types().get(field)) if a is not None and a.kind == "Struct" else None
+    pv = Prov(fn)
+
+    def is_source(e):
+        e = _peel(e)
+        if e.get("k") == "Field" and norm(e.get("adt")) == adt and e["field"] == field:
+            return True
+        if e.get("k") == "Path" and "local" in e and want_elem and _elem_ty(e.get("t")) == want_elem:
+            return ("field", adt, field) in pv.data_atoms(e)
+        return False
+    STARTS = ("iter", "into_iter", "iter_mut", "drain", "chunks", "windows")
+    complete, lossy = 0, []
+    seen_inner = set()
+    calls = [c for c in fn.walk() if c.get("k") == "MethodCall"]
+    for c in calls:
+        base, chain = method_chain(c)
+        for x in chain[:-1]:
+            seen_inner.add(id(x))
+    for c in calls:
+        if id(c) in seen_inner:
+            continue   # only maximal chains
+        base, chain = method_chain(c)
+        names = [x["method"] for x in chain]
+        if not is_source(base) or not names or names[0] not in STARTS:
+            continue
+        bad = [m for m in names if m in LOSSY_OR_REORDERING]
+        if bad:
+            lossy.append(bad)
+        else:
+            complete += 1
+    for c in fn.walk():
+        if c.get("k") == "Call" and c.get("x") == "desugar:ForLoop" and c.get("args") and is_source(c["args"][0]):
+            complete += 1
+    if complete:
+        R.holds(rule, key, "every element of `%s` is emitted (%s)" % (field, what), loc=fn.loc())
+    elif lossy:
+        R.violated(rule, key, "%s applies %s to %s: some %s are dropped from the declaration" % (fn.path, lossy[0], field, what), loc=fn.loc())
+    else:
+        R.undecided(rule, key, "no traversal of `%s.%s` was found in %s or its same-crate helpers; whether every one of the %s is emitted is "
+                    "not decided on this shape" % (adt.split("::")[-1], field, fn.path, what), loc=fn.loc())
+
+
+def nulltable_bottom_up_struct(P, R, rule, impl, wrapper, ret_adt, flag):
+    """style A': impl(ty) -> struct {type, flag: bool} (the tuple of style A with named members); the wrapper (or a method of the
+    struct it calls) adds `| null` iff the flag.  Same table as style A: Named -> nullable, List -> nullable with elements decided
+    afresh through the wrapper, NonNull -> not nullable with the inner flag overridden."""
+    tag = short(impl.path)
+    keep = stable_pred(lambda g: g.path not in (wrapper.path, impl.path))
+    fi = inlined(P, impl, pred=keep)
+    ms = matches_on(fi, "Type")
+    if not ms:
+        R.undecided(rule, "nulltable:" + tag, "no match over Type in %s" % impl.path, loc=impl.loc())
+        return
+    tab = variant_table(ms[0])
+    R.check(rule, "nulltable:%s:kinds" % tag, set(tab) == {"Named", "List", "NonNull"}, "Named/List/NonNull handled",
+            "%s handles wrappers %s" % (impl.path, sorted(tab)), loc=impl.loc())
+
+    def flags(arm):
+        """literal values given to the flag in the arm (struct literals of the result type, helper constructors inlined; `r.flag = lit`)"""
+        out = []
+        for x in subnodes(arm["body"]):
+            if x.get("k") == "Struct" and "rest" not in x and norm(x.get("adt")) == ret_adt:
+                out += [lit_value(fl["e"]) for fl in x["fields"] if fl["name"] == flag]
+            elif x.get("k") == "Assign" and x["l"].get("k") == "Field" and norm(x["l"].get("adt")) == ret_adt and x["l"]["field"] == flag:
+                out.append(lit_value(x["r"]))
+        return out
+    for kind, want in (("Named", True), ("List", True), ("NonNull", False)):
+        arm = tab.get(kind)
+        if arm is None:
+            continue
+        vals = flags(arm)
+        key = "nulltable:%s:%s" % (tag, kind)
+        if not vals or any(v is None for v in vals):
+            R.undecided(rule, key, "%s: the %s arm does not set `%s` to a literal" % (impl.path, kind, flag), loc=impl.loc())
+        else:
+            R.check(rule, key, all(v is want for v in vals), "%s -> nullable=%s" % (kind, want),
+                    "%s maps a %s type to nullable=%s; GraphQL types are nullable unless wrapped in Non-Null (expected %s): `| null` is %s"
+                    % (impl.path, kind, vals, want, "lost" if want else "invented"), loc=impl.loc())
+    arm = tab.get("List")
+    if arm is not None:
+        calls = [call_name(x) for x in subnodes(arm["body"]) if x.get("k") == "Call" and call_name(x) in (impl.path, wrapper.path)]
+        R.check(rule, "nulltable:%s:list-element" % tag, calls == [wrapper.path],
+                "list elements get their own `| null` through %s" % wrapper.name,
+                "%s computes list elements via %s: the element's nullability is not decided on its own (wrapper-exact nullability lost at one depth)"
+                % (impl.path, [short(c) for c in calls]), loc=impl.loc())
+    arm = tab.get("NonNull")
+    if arm is not None:
+        rec = [x for x in subnodes(arm["body"]) if x.get("k") == "Call" and call_name(x) == impl.path]
+        vals = flags(arm)
+        if rec and vals and all(v is False for v in vals):
+            R.holds(rule, "nulltable:%s:nonnull-discards" % tag, "NonNull recurses through the impl and overrides the inner flag", loc=impl.loc())
+        else:
+            R.undecided(rule, "nulltable:%s:nonnull-discards" % tag, "%s: how the NonNull arm treats the inner flag is not recognised" % impl.path, loc=impl.loc())
+    # wrapper (with the struct's own methods inlined): `| null` under the flag, not under its negation
+    wi = inlined(P, wrapper, pred=keep)
+    pvw = Prov(wi)
+    ok, seen = False, 0
+    for i in wi.walk():
+        if i.get("k") != "If":
+            continue
+        then_null = any(norm(x.get("def", "")).endswith("TSType::Null") for x in subnodes(i["then"]) if x.get("k") == "Path")
+        else_null = "else" in i and any(norm(x.get("def", "")).endswith("TSType::Null") for x in subnodes(i["else"]) if x.get("k") == "Path")
+        if not (then_null or else_null):
+            continue
+        seen += 1
+        neg = any(x.get("k") == "Unary" and x.get("op") == "Not" for x in subnodes(i["cond"]))
+        if then_null and not else_null and not neg and (ret_adt, flag) in _field_nodes(i["cond"]) | {(a[1], a[2]) for a in pvw.atoms(i["cond"]) if a[0] == "field"}:
+            ok = True
+    key = "nulltable:%s:wrapper" % short(wrapper.path)
+    if not seen:
+        R.undecided(rule, key, "no `if` adding TSType::Null was found in %s or the methods it calls" % wrapper.path, loc=wrapper.loc())
+    else:
+        R.check(rule, key, ok, "`| null` is added exactly when the flag says nullable", "%s does not add `| null` exactly when nullable" % wrapper.path, loc=wrapper.loc())
 
 
 def r09a(P, R):
@@ -44,131 +184,323 @@ def r09a(P, R):
         R.check("R09-a", "nulltable:entry", v is not None, "root flag is a constant", "the root nullability flag is not a constant", loc=wrap.loc())
         nulltable_top_down(P, R, "R09-a", impl, "Type", flag, flag_means_nonnull=(v is False), wrap_kinds=("Named", "List"))
     else:
-        R.undecided("R09-a", "nulltable:" + short(impl.path), "unrecognised shape of the nullability helper", loc=impl.loc())
+        ret = P.adts.get((impl.sig_output or "").split("<")[0])
+        bools = [n for n, t in ret.field_types().items() if t == "bool"] if ret is not None and ret.kind == "Struct" else []
+        if len(bools) == 1 and len(ret.fields()) == 2:
+            nulltable_bottom_up_struct(P, R, "R09-a", impl, wrap, ret.path, bools[0])
+        else:
+            R.undecided("R09-a", "nulltable:" + short(impl.path), "unrecognised shape of the nullability helper", loc=impl.loc())
     # who uses it: variables, input object fields, object fields, resolver args/results
     users = sorted(short(c) for c in P.callers_of(wrap.path) if "::tests" not in c)
-    R.check("R09-a", "nulltable-users", len(users) >= 4, "used by %s" % users, "get_ts_type_of_type lost callers: %s" % users)
+    if len(users) >= 4:
+        R.holds("R09-a", "nulltable-users", "used by %s" % users)
+    else:
+        R.undecided("R09-a", "nulltable-users", "get_ts_type_of_type has fewer direct callers than on the pinned tree (%s): the printers may reach it "
+                    "through a shared helper; which printers share the nullability table is not decided" % users)
+
+
+def _field_nodes(e):
+    """(adt, field) of the field projections written in an expression (virtually inlined callee bodies are not entered)"""
+    out, st = set(), [e]
+    while st:
+        n = st.pop()
+        if isinstance(n, list):
+            st.extend(n)
+        elif isinstance(n, dict):
+            if n.get("k") == "Field" and n.get("adt"):
+                out.add((norm(n["adt"]), n["field"]))
+            st.extend(v for kk, v in n.items() if kk != "inl" and isinstance(v, (dict, list)))
+    return out
+
+
+def trace_tags(pv, e, ftags, _seen=None):
+    """literal tags reaching expression `e`: tags put on locals (("armlit", L) extra atoms) and tags of struct fields (`ftags`:
+    (adt, field) -> literals) that `e` projects — following local bindings, but *field-sensitively*: a projection `x.f` of a tagged
+    field contributes the tags of f only, not everything `x` was built from; inlined callee bodies are entered only through the
+    locals they bind."""
+    _seen = _seen if _seen is not None else set()
+    out, st = set(), [e]
+    while st:
+        n = st.pop()
+        if isinstance(n, list):
+            st.extend(n)
+            continue
+        if not isinstance(n, dict):
+            continue
+        k = n.get("k")
+        if k == "Field" and n.get("adt") and (norm(n["adt"]), n["field"]) in ftags:
+            out |= ftags[(norm(n["adt"]), n["field"])]
+            continue
+        if k == "Path" and "local" in n:
+            lid = n["local"]
+            if lid in _seen:
+                continue
+            _seen.add(lid)
+            for src, extra in pv.src.get(lid, []):
+                out |= {x[1] for x in extra if x[0] == "armlit"}
+                if src is not None:
+                    out |= trace_tags(pv, src, ftags, _seen)
+            continue
+        if k == "Closure":
+            st.append(n.get("body"))
+            continue
+        st.extend(v for kk, v in n.items() if kk != "inl" and isinstance(v, (dict, list)))
+    return out
+
+
+def scalar_target_table(P, g):
+    """{(config variant, target): set of leaf fields} read out of ScalarTypeConfig::get_type with same-crate helpers inlined.
+    Two spellings are understood: a `match target` whose arms read the fields of the variant's payload directly (nested in, or
+    nesting, the match over the config), and a `match target` that selects a field of a *view* struct which another match over the
+    config fills per variant (struct literal per arm).  -> (table, number of `match target` tables found)"""
+    CFGS = CFG + "scalar_type::"
+    LEAF = {CFGS + "SendReceiveScalarTypeConfig": "SendReceive", CFGS + "SeparateScalarTypeConfig": "Separate"}
+    gi = inlined(P, g)
+    # view structs: struct literals built in an arm of a match over ScalarTypeConfig -> {(view adt, view field): {variant: leaf fields}}
+    view = {}
+    for i, (n, _) in enumerate(gi.nodes()):
+        if n.get("k") == "Struct" and "rest" not in n and norm(n.get("adt", "")) not in LEAF:
+            variant = None
+            for c in enclosing_contexts(gi, i):
+                if c[0] == "arm" and c[1] is not None and peel_ty(c[1]["scrut"].get("t")).split("<")[0].endswith("::ScalarTypeConfig"):
+                    v, _c = arm_variants({"arms": [c[2]]})
+                    if len(v) == 1:
+                        variant = sorted(v)[0]
+            if variant is None:
+                continue
+            for fld in n["fields"]:
+                leaves = {(LEAF[a], f) for a, f in _field_nodes(fld["e"]) if a in LEAF}
+                view.setdefault((norm(n["adt"]), fld["name"]), {}).setdefault(variant, set()).update(x[1] for x in leaves if x[0] == variant)
+    table, found = {}, 0
+    for i, (m, _) in enumerate(gi.nodes()):
+        if m.get("k") != "Match" or m.get("src") != "Normal" or not peel_ty(m["scrut"].get("t")).endswith("::TypeTarget"):
+            continue
+        tab = variant_table(m)
+        hit = False
+        for target, arm in tab.items():
+            if target == "_":
+                continue
+            # the fields the arm itself projects (not what the projected struct was built from)
+            for x in _field_nodes(arm["body"]):
+                if x[0] in LEAF:
+                    table.setdefault((LEAF[x[0]], target), set()).add(x[1])
+                    hit = True
+                elif x in view:
+                    for variant, leaves in view[x].items():
+                        table.setdefault((variant, target), set()).update(leaves)
+                    hit = True
+        found += 1 if hit else 0
+    return table, found
 
 
 def r09b(P, R):
-    f = P.fn(PR + "operation_type_printer::type_printer::get_type_for_variable_definitions")
-    namespace_targets(P, R, "R09-b", f, "OperationInput", 1)
-    all_elements(P, R, "R09-b", f, A + "variable::VariablesDefinition", "definitions", "declared variables")
-    pv = Prov(f)
-    keys = [n for n in f.walk() if n.get("k") == "Struct" and "rest" not in n and norm(n.get("adt", "")).endswith("ts_types::ObjectField")]
-    R.floor("R09-b", "variable properties", len(keys), 1)
-    for k in keys:
-        key = [x for x in k["fields"] if x["name"] == "key"][0]["e"]
-        ok = has_field(pv.atoms(key), A + "variable::Variable", "name")
-        R.check("R09-b", "variable-key", ok, "property key = variable name", "the Variables property is not keyed by the variable's name", loc=f.loc())
-        ro = lit_value([x for x in k["fields"] if x["name"] == "readonly"][0]["e"])
-        R.check("R09-b", "variable-readonly", ro is True, "readonly", "variables are not readonly", loc=f.loc())
-    # scalar declarations pick the type for the *current* target
-    s = P.fn("<" + A + "type_system::ScalarTypeDefinition as " + PR + "schema_type_printer::type_printer::TypePrinter>::print_type")
-    pvs = Prov(s)
-    gets = [c for c in s.walk() if c.get("k") == "MethodCall" and (call_name(c) or "").endswith("ScalarTypeConfig::get_type")]
-    R.floor("R09-b", "scalar get_type calls", len(gets), 1)
-    for c in gets:
-        ok = has_field(pvs.atoms(c["args"][0]), PR + "schema_type_printer::context::SchemaTypePrinterContext", "type_target")
-        R.check("R09-b", "scalar-target", ok, "scalar alias uses get_type(context.type_target)",
-                "scalar declarations take their TypeScript type for a fixed target instead of the namespace being printed", loc=s.loc())
-    # ScalarTypeConfig::get_type table
-    g = P.fn(CFG + "scalar_type::ScalarTypeConfig::get_type")
-    want_sep = {"ResolverInput": "resolver_input", "ResolverOutput": "resolver_output", "OperationInput": "operation_input", "OperationOutput": "operation_output"}
-    want_sr = {"ResolverInput": "receive", "ResolverOutput": "send", "OperationInput": "send", "OperationOutput": "receive"}
-    pvg = Prov(g)
-    found = 0
-    for m in matches_on(g, "TypeTarget"):
-        tab = variant_table(m)
-        fields = {k: {x[2] for x in pvg.atoms(arm["body"]) if x[0] == "field"} for k, arm in tab.items()}
-        allf = set().union(*fields.values()) if fields else set()
-        want = want_sep if "resolver_input" in allf else (want_sr if "send" in allf else None)
-        if want is None:
-            continue
-        found += 1
-        for k, w in sorted(want.items()):
-            R.check("R09-b", "scalar-table:%s:%s" % ("separate" if want is want_sep else "send-receive", k), fields.get(k) == {w}, "%s -> %s" % (k, w),
-                    "ScalarTypeConfig::get_type maps target %s to %s (expected %s): the wrong direction's TypeScript type is used" % (k, sorted(fields.get(k) or []), w), loc=g.loc())
-    R.floor("R09-b", "scalar target tables", found, 2)
-    # @nitrogql_ts_type directive arguments -> the four fields (by name, not by position)
-    gs = P.fn(PR + "schema_type_printer::context::get_scalar_types")
-    pvd = Prov(gs)
-    for m in matches_on_type(gs, "str"):
-        for arm in m["arms"]:
-            for lit in pat_lits(arm["pat"]):
-                for asg in subnodes(arm["body"]):
-                    if asg.get("k") == "Assign" and asg["l"].get("k") == "Path" and "local" in asg["l"]:
-                        pvd.src.setdefault(asg["l"]["local"], []).append((None, frozenset({("armlit", lit)})))
-    pvd._memo = {}
-    ctor = [n for n in gs.walk() if n.get("k") == "Struct" and "rest" not in n and norm(n.get("adt", "")).endswith("SeparateScalarTypeConfig")]
-    R.floor("R09-b", "directive-typed scalar construction", len(ctor), 1)
-    want = {"resolver_input": "resolverInput", "resolver_output": "resolverOutput", "operation_input": "operationInput", "operation_output": "operationOutput"}
-    for c in ctor:
-        for fld in c["fields"]:
-            lits = {x[1] for x in pvd.atoms(fld["e"]) if x[0] == "armlit"}
-            R.check("R09-b", "directive-arg:" + fld["name"], lits == {want[fld["name"]]}, "%s <- @nitrogql_ts_type(%s:)" % (fld["name"], want[fld["name"]]),
-                    "SeparateScalarTypeConfig.%s is filled from directive argument %s (expected `%s`): send and receive types of directive-typed "
-                    "scalars are swapped" % (fld["name"], sorted(lits), want[fld["name"]]), loc=gs.loc())
-    # config scalarTypes take precedence: `.or(directive)`
-    R.check("R09-b", "scalar-precedence", any(c.get("k") == "MethodCall" and c["method"] == "or" for c in gs.walk()), "config scalarTypes override the directive",
-            "precedence between scalarTypes and @nitrogql_ts_type changed", loc=gs.loc())
+    def _part0():
+        require_fields(P, (A + "variable::Variable", "name"), (A + "variable::VariableDefinition", "type"), (A + "variable::VariablesDefinition", "definitions"))
+        f0 = P.fn(PR + "operation_type_printer::type_printer::get_type_for_variable_definitions")
+        f = inl(P, f0)
+        pv = Prov(f)
+        namespace_targets(P, R, "R09-b", f, "OperationInput", 1)
+        all_elements(P, R, "R09-b", f, A + "variable::VariablesDefinition", "definitions", "declared variables")
+        # the members of the Variables type: ObjectField literals whose type derives from a variable's declared type
+        keys = [n for n in f.walk() if n.get("k") == "Struct" and "rest" not in n and norm(n.get("adt", "")).endswith("ts_types::ObjectField")
+                and any(y["name"] == "type" and has_field(pv.deep_atoms(y["e"]), A + "variable::VariableDefinition", "type") for y in n["fields"])]
+        R.floor("R09-b", "variable properties", len(keys), 1)
+        for k in keys:
+            flds = {x["name"]: x["e"] for x in k["fields"]}
+            if "key" in flds:
+                ok = has_field(pv.deep_atoms(flds["key"]), A + "variable::Variable", "name")
+                R.check("R09-b", "variable-key", ok, "property key = variable name", "the Variables property is not keyed by the variable's name", loc=f.loc())
+            if "readonly" in flds:
+                ro = lit_value(flds["readonly"])
+                if ro is None:
+                    R.undecided("R09-b", "variable-readonly", "`readonly` of a Variables property is not a literal", loc=f.loc())
+                else:
+                    R.check("R09-b", "variable-readonly", ro is True, "readonly", "variables are not readonly", loc=f.loc())
+
+    def _part1():
+        # scalar declarations pick the type for the *current* target
+        require_fields(P, (PR + "schema_type_printer::context::SchemaTypePrinterContext", "type_target"))
+        s = inl(P, P.fn("<" + A + "type_system::ScalarTypeDefinition as " + PR + "schema_type_printer::type_printer::TypePrinter>::print_type"))
+        pvs = Prov(s)
+        gets = [c for c in s.walk() if c.get("k") == "MethodCall" and (call_name(c) or "").endswith("ScalarTypeConfig::get_type")]
+        R.floor("R09-b", "scalar get_type calls", len(gets), 1)
+        for c in gets:
+            ok = has_field(pvs.deep_atoms(c["args"][0]), PR + "schema_type_printer::context::SchemaTypePrinterContext", "type_target")
+            R.check("R09-b", "scalar-target", ok, "scalar alias uses get_type(context.type_target)",
+                    "scalar declarations take their TypeScript type for a fixed target instead of the namespace being printed", loc=s.loc())
+
+    def _part2():
+        # ScalarTypeConfig::get_type table
+        g = P.fn(CFG + "scalar_type::ScalarTypeConfig::get_type")
+        want = {"Separate": {"ResolverInput": "resolver_input", "ResolverOutput": "resolver_output", "OperationInput": "operation_input", "OperationOutput": "operation_output"},
+                "SendReceive": {"ResolverInput": "receive", "ResolverOutput": "send", "OperationInput": "send", "OperationOutput": "receive"}}
+        for variant, cfg in (("Separate", "SeparateScalarTypeConfig"), ("SendReceive", "SendReceiveScalarTypeConfig")):
+            require_fields(P, *[(CFG + "scalar_type::" + cfg, f) for f in set(want[variant].values())])
+        table, found = scalar_target_table(P, g)
+        for variant, tag in (("Separate", "separate"), ("SendReceive", "send-receive")):
+            for k, w in sorted(want[variant].items()):
+                got = table.get((variant, k))
+                key = "scalar-table:%s:%s" % (tag, k)
+                if not got:
+                    R.undecided("R09-b", key, "no arm of a match over TypeTarget reachable from ScalarTypeConfig::get_type selects a field of the %s "
+                                "config for target %s; the table is not decided on this shape" % (variant, k), loc=g.loc())
+                else:
+                    R.check("R09-b", key, got == {w}, "%s -> %s" % (k, w),
+                            "ScalarTypeConfig::get_type maps target %s to %s (expected %s): the wrong direction's TypeScript type is used" % (k, sorted(got), w), loc=g.loc())
+        R.floor("R09-b", "scalar target tables", found, 1)
+
+    def _part3():
+        # @nitrogql_ts_type directive arguments -> the four fields (by name, not by position)
+        require_fields(P, (SOPT, "scalar_types"), *[(CFG + "scalar_type::SeparateScalarTypeConfig", f)
+                                                    for f in ("resolver_input", "resolver_output", "operation_input", "operation_output")])
+        gs0 = P.fn(PR + "schema_type_printer::context::get_scalar_types")
+        gs = inl(P, gs0)
+        pvd = Prov(gs)
+        ftags = {}   # (adt, field) assigned in an arm of the match over the argument name -> literals of that arm
+        for m in matches_on_type(gs, "str"):
+            for arm in m["arms"]:
+                for lit in pat_lits(arm["pat"]):
+                    for asg in subnodes(arm["body"]):
+                        if asg.get("k") != "Assign":
+                            continue
+                        if asg["l"].get("k") == "Path" and "local" in asg["l"]:
+                            pvd.src.setdefault(asg["l"]["local"], []).append((None, frozenset({("armlit", lit)})))
+                        elif asg["l"].get("k") == "Field" and asg["l"].get("adt"):
+                            ftags.setdefault((norm(asg["l"]["adt"]), asg["l"]["field"]), set()).add(lit)
+        pvd._memo = {}
+        ctor = [n for n in gs.walk() if n.get("k") == "Struct" and "rest" not in n and norm(n.get("adt", "")).endswith("SeparateScalarTypeConfig")]
+        R.floor("R09-b", "directive-typed scalar construction", len(ctor), 1)
+        want = {"resolver_input": "resolverInput", "resolver_output": "resolverOutput", "operation_input": "operationInput", "operation_output": "operationOutput"}
+        for c in ctor:
+            for fld in c["fields"]:
+                if fld["name"] not in want:
+                    continue
+                lits = trace_tags(pvd, fld["e"], ftags)
+                if not lits:
+                    R.undecided("R09-b", "directive-arg:" + fld["name"], "the value of SeparateScalarTypeConfig.%s was not traced back to an arm of a "
+                                "match over the directive's argument names" % fld["name"], loc=gs.loc())
+                    continue
+                R.check("R09-b", "directive-arg:" + fld["name"], lits == {want[fld["name"]]}, "%s <- @nitrogql_ts_type(%s:)" % (fld["name"], want[fld["name"]]),
+                        "SeparateScalarTypeConfig.%s is filled from directive argument %s (expected `%s`): send and receive types of directive-typed "
+                        "scalars are swapped" % (fld["name"], sorted(lits), want[fld["name"]]), loc=gs.loc())
+        # config scalarTypes take precedence over the directive: `config.or(directive)`
+        SOPTS = (SOPT, "scalar_types")
+
+        def source(e):
+            a = pvd.atoms(e)
+            from_cfg = any(x[0] == "field" and (x[1], x[2]) == SOPTS for x in a)
+            from_dir = any((x[0] == "lit" and x[1] == "nitrogql_ts_type") or (x[0] == "ctor" and x[1].endswith("SeparateScalarTypeConfig")) for x in a)
+            return "config" if from_cfg and not from_dir else ("directive" if from_dir and not from_cfg else None)
+        verdicts = []
+        for c in gs.walk():
+            if c.get("k") == "MethodCall" and c["method"] in ("or", "or_else", "unwrap_or", "unwrap_or_else", "xor") and c["args"]:
+                first, second = source(c["recv"]), source(c["args"][0])
+                if first and second and first != second:
+                    verdicts.append(first)
+        if "directive" in verdicts:
+            R.violated("R09-b", "scalar-precedence", "%s takes the @nitrogql_ts_type directive first and falls back to the `scalarTypes` config: the "
+                       "documented precedence (config overrides directive) is reversed" % gs0.path, loc=gs.loc())
+        elif verdicts:
+            R.holds("R09-b", "scalar-precedence", "config scalarTypes override the directive", loc=gs.loc())
+        else:
+            R.undecided("R09-b", "scalar-precedence", "no `config.or(directive)`-like combination of the two sources of a scalar's TypeScript type was "
+                        "recognised in %s" % gs0.path, loc=gs.loc())
+
+    sections(R, "R09-b", ("variables", _part0), ("scalar-target", _part1), ("scalar-table", _part2), ("directive-scalars", _part3))
 
 
-def coupling(P, R, rule, f, opt_adt, opt_field, tag):
-    """`optional` and the `| undefined` union both derive from one flag = (!is_nonnull && option)"""
+def printer_logic(g):
+    """inlining predicate: helpers of the printers, but not the TypeScript type library `ts_types` (generic constructors such as
+    TSType::object, and the GraphQL-type -> TS-type converter whose recursion is R09-a's subject)"""
+    return not g.path.startswith((PR + "ts_types::", "<" + PR + "ts_types::"))
+
+
+def inl(P, f):
+    """`f` with the printer-logic helpers of its crate virtually inlined"""
+    return inlined(P, f, pred=printer_logic)
+
+
+def coupling(P, R, rule, f, opt_adt, opt_field, tag, key_field):
+    """`optional` and the `| undefined` union both derive from one flag = (!is_nonnull && option); `f` is looked at with its
+    same-crate helpers inlined.  The members concerned are the ObjectField literals keyed by `key_field` (the name of the
+    variable / input field), whatever other object types the helpers build."""
+    require_fields(P, (opt_adt, opt_field), key_field, (PR + "ts_types::ObjectField", "key"), (PR + "ts_types::ObjectField", "optional"))
+    P.fn(A + "type::Type::is_nonnull")
+    f = inl(P, f)
     pv = Prov(f)
-    ofs = [n for n in f.walk() if n.get("k") == "Struct" and "rest" not in n and norm(n.get("adt", "")).endswith("ts_types::ObjectField")]
+    ofs = [n for n in f.walk() if n.get("k") == "Struct" and "rest" not in n and norm(n.get("adt", "")).endswith("ts_types::ObjectField")
+           and any(y["name"] == "key" and has_field(pv.deep_atoms(y["e"]), key_field[0], key_field[1]) for y in n["fields"])]
     R.floor(rule, "object fields in " + tag, len(ofs), 1)
+    undef_ifs = [i for i in f.walk() if i.get("k") == "If" and any(norm(x.get("def", "")).endswith("TSType::Undefined") for x in subnodes(i["then"]) if x.get("k") == "Path")]
     for o in ofs:
-        opt = [x for x in o["fields"] if x["name"] == "optional"][0]["e"]
-        a = pv.atoms(opt)
+        opts = [x for x in o["fields"] if x["name"] == "optional"]
+        if not opts:
+            continue
+        opt = opts[0]["e"]
+        a = pv.deep_atoms(opt)
         ok = has_field(a, opt_adt, opt_field) and has_call(a, "Type::is_nonnull")
         R.check(rule, "optional-flag:" + tag, ok, "`optional` = option && !non-null",
                 "%s: the `?` marker does not depend on both the declared nullability and the `%s` option: nullable inputs stay optional when "
                 "the option is off (or required ones become optional)" % (f.path, opt_field), loc=f.loc())
-        undef_ifs = [i for i in f.walk() if i.get("k") == "If" and any(norm(x.get("def", "")).endswith("TSType::Undefined") for x in subnodes(i["then"]) if x.get("k") == "Path")]
         R.floor(rule, "`| undefined` sites in " + tag, len(undef_ifs), 1)
         for i in undef_ifs:
-            ca = pv.atoms(i["cond"])
+            ca = pv.deep_atoms(i["cond"])
             same = (i["cond"].get("k") == "Path" and opt.get("k") == "Path" and i["cond"].get("local") == opt.get("local"))
             R.check(rule, "undefined-coupled:" + tag, same or ({x for x in ca if x[0] in ("field", "call")} == {x for x in a if x[0] in ("field", "call")}),
                     "`| undefined` is added under the same flag as `?`", "%s adds `| undefined` under a different condition than the `?` marker" % f.path, loc=f.loc())
 
 
 def declared_type_direct(P, R, rule, f, adt, tag):
-    """the type handed to get_ts_type_of_type / tested with is_nonnull is the declared type itself: not a projection of it, and not
-    dependent on the default value"""
+    """the type handed to get_ts_type_of_type / tested with is_nonnull is the declared type itself: not a projection of it (a
+    field of a `Type` wrapper, a match over `Type`), and not dependent on another field of the same definition (its default value).
+    How the definition itself is reached (iterator, `for` loop, helper parameter) plays no role."""
+    require_fields(P, (adt, "type"))
+    f = inl(P, f)
     pv = Prov(f)
-    wrap = PR + "ts_types::type_to_ts_type::get_ts_type_of_type"
-    uses = [("converted", c["args"][0]) for c in f.walk() if c.get("k") == "Call" and call_name(c) == wrap]
+    wrap = P.fn(PR + "ts_types::type_to_ts_type::get_ts_type_of_type").path
+    uses = [("converted", c["args"][0]) for c in f.walk() if c.get("k") == "Call" and call_name(c) == wrap and c["args"]]
     uses += [("tested non-null", c["recv"]) for c in f.walk() if c.get("k") == "MethodCall" and (call_name(c) or "").endswith("Type::is_nonnull")]
     R.floor(rule, "uses of the declared type in " + tag, len(uses), 2)
     for what, e in uses:
         a = pv.atoms(e)
         fields = {(x[1], x[2]) for x in a if x[0] == "field"}
         variants = sorted(x[1] for x in a if x[0] == "variant" and "::Type::" in x[1])
-        extra = sorted(x for x in fields if x != (adt, "type") and not x[0].endswith(("VariablesDefinition", "InputObjectTypeDefinition", "ArgumentsDefinition")))
-        R.check(rule, "declared-type-direct:%s:%s" % (tag, what.split()[0]), (adt, "type") in fields and not extra and not variants,
-                "the type %s is exactly the declared `%s.type`" % (what, adt.split("::")[-1]),
-                "%s: the type %s is not the declared type itself (also depends on %s%s): the printed nullability/optionality of an input "
-                "differs from its declaration" % (f.path, what, extra, (" and on a match over " + ", ".join(variants)) if variants else ""), loc=f.loc())
+        extra = sorted(x for x in fields if (x[0] == adt and x[1] != "type") or x[0].startswith(A + "type::"))
+        key = "declared-type-direct:%s:%s" % (tag, what.split()[0])
+        if extra or variants:
+            R.violated(rule, key, "%s: the type %s is not the declared type itself (also depends on %s%s): the printed nullability/optionality of an input "
+                       "differs from its declaration" % (f.path, what, extra, (" and on a match over " + ", ".join(variants)) if variants else ""), loc=f.loc())
+        elif (adt, "type") in fields:
+            R.holds(rule, key, "the type %s is exactly the declared `%s.type`" % (what, adt.split("::")[-1]), loc=f.loc())
+        else:
+            R.undecided(rule, key, "%s: the type %s was not traced back to `%s.type`" % (f.path, what, adt.split("::")[-1]), loc=f.loc())
 
 
 def r09c(P, R):
-    f = P.fn(PR + "operation_type_printer::type_printer::get_type_for_variable_definitions")
-    coupling(P, R, "R09-c", f, OPT, "allow_undefined_as_optional_input", "variables")
-    declared_type_direct(P, R, "R09-c", f, A + "variable::VariableDefinition", "variables")
-    fast_equal_sound(P, R, "R09-c")
-    g = P.fn("<" + A + "type_system::InputObjectTypeDefinition as " + PR + "schema_type_printer::type_printer::TypePrinter>::print_type")
-    coupling(P, R, "R09-c", g, SOPT, "input_nullable_field_is_optional", "input-object")
-    declared_type_direct(P, R, "R09-c", g, A + "type_system::InputValueDefinition", "input-object")
-    all_elements(P, R, "R09-c", g, A + "type_system::InputObjectTypeDefinition", "fields", "input fields")
-    e = P.fn("<" + A + "type_system::EnumTypeDefinition as " + PR + "schema_type_printer::type_printer::TypePrinter>::print_type")
-    all_elements(P, R, "R09-c", e, A + "type_system::EnumTypeDefinition", "values", "enum members")
-    pv = Prov(e)
-    sl = [c for c in e.walk() if c.get("k") == "Call" and norm(c.get("callee", "")).endswith("TSType::StringLiteral")]
-    ok = bool(sl) and has_field(pv.atoms(sl[0]["args"][0]), A + "type_system::EnumValueDefinition", "name")
-    R.check("R09-c", "enum-literals", ok, "enum = union of its value names as string literals", "enum members are not its value names", loc=e.loc())
+    def variables():
+        f = P.fn(PR + "operation_type_printer::type_printer::get_type_for_variable_definitions")
+        coupling(P, R, "R09-c", f, OPT, "allow_undefined_as_optional_input", "variables", (A + "variable::Variable", "name"))
+        declared_type_direct(P, R, "R09-c", f, A + "variable::VariableDefinition", "variables")
+
+    def input_objects():
+        g = P.fn("<" + A + "type_system::InputObjectTypeDefinition as " + PR + "schema_type_printer::type_printer::TypePrinter>::print_type")
+        coupling(P, R, "R09-c", g, SOPT, "input_nullable_field_is_optional", "input-object", (A + "type_system::InputValueDefinition", "name"))
+        declared_type_direct(P, R, "R09-c", g, A + "type_system::InputValueDefinition", "input-object")
+        all_elements(P, R, "R09-c", inl(P, g), A + "type_system::InputObjectTypeDefinition", "fields", "input fields")
+
+    def enums():
+        require_fields(P, (A + "type_system::EnumValueDefinition", "name"), (A + "type_system::EnumTypeDefinition", "values"))
+        e = inl(P, P.fn("<" + A + "type_system::EnumTypeDefinition as " + PR + "schema_type_printer::type_printer::TypePrinter>::print_type"))
+        all_elements(P, R, "R09-c", e, A + "type_system::EnumTypeDefinition", "values", "enum members")
+        pv = Prov(e)
+        sl = [c for c in e.walk() if c.get("k") == "Call" and norm(c.get("callee", "")).endswith("TSType::StringLiteral") and c["args"]]
+        if not sl:
+            R.undecided("R09-c", "enum-literals", "no TSType::StringLiteral is built in %s or its helpers" % e.path, loc=e.loc())
+        else:
+            ok = any(has_field(pv.deep_atoms(c["args"][0]), A + "type_system::EnumValueDefinition", "name") for c in sl)
+            R.check("R09-c", "enum-literals", ok, "enum = union of its value names as string literals", "enum members are not its value names", loc=e.loc())
+
+    sections(R, "R09-c", ("variables", variables), ("fast-equal", lambda: fast_equal_sound(P, R, "R09-c")), ("input-objects", input_objects), ("enums", enums))
 
 
 def r09d(P, R):
@@ -208,6 +540,11 @@ def r09d(P, R):
             if exp is None:
                 R.undecided("R09-d", key, "option field `%s` has no entry in the wiring table" % fld, loc=fc.loc())
                 continue
+            try:
+                require_fields(P, (CFG + "config::" + exp[0], exp[1]))
+            except Exception as e:
+                R.undecided("R09-d", key, "kind=anchor-missing: %s" % e, loc=fc.loc())
+                continue
             got = {g for g in w.get(fld, set()) if g[0] != "<assigned>"}
             R.check("R09-d", key, got == {exp}, "`%s` <- config %s.%s" % (fld, exp[0], exp[1]),
                     "%s never derives `%s` from config %s.%s (it is wired to %s): the documented option has no effect on this printer"
@@ -233,7 +570,7 @@ def r09d(P, R):
 RULES = [("R09-a", r09a), ("R09-b", r09b), ("R09-c", r09c), ("R09-d", r09d)]
 EXPLANATION = (
     "Variables/input typing, structural clauses: (R09-a) the nullability table of get_ts_type_of_type (nullable unless Non-Null, list "
-    "elements decided afresh; both bottom-up and top-down shapes understood); (R09-b) variables refer to the OperationInput namespace, "
+    "elements decided afresh; bottom-up (tuple or named struct result) and top-down shapes understood); (R09-b) variables refer to the OperationInput namespace, "
     "are keyed by variable name and readonly, scalar aliases take get_type(context.type_target), the target tables of "
     "ScalarTypeConfig::get_type, @nitrogql_ts_type arguments reach the four fields by name, config overrides directive; (R09-c) "
     "`?` and `| undefined` derive from one flag = option && nullable, for variables and input-object fields; every input field and "
